@@ -68,6 +68,14 @@ CHECKS["C10"] = ("actions", "model_checking",
    "bounded exhaustive exploration: every block forest up to the bound x every line x every offered section-to-list / list-to-sections / change-list-type action on the real Server; the sequence of content leaves must be unchanged, only the note itself may be rewritten, and the inverse action applied to the result must give the formatted original byte-for-byte (where the statement promises it)",
    "content leaves via R1 in document order with headings and item texts identified",
    "explicit-state enumeration of inputs x cursor lines x operation pairs against the implementation", "§5 C10")
+CHECKS["C17"] = ("squash", "model_checking",
+   "bounded exhaustive exploration of block-reference graphs: every library of 1-3 (thorough: 4, all 2^16 edge sets) notes over a block alphabet with references to every note incl. itself and a missing one, in every position, x every depth 0..4 (thorough 0..6), plus chains, self-loops and a 3-cycle at depths up to 255, is squashed by the real code through both routes (CLI rebuild + export, generate); the result is compared with an independent recursive expander over the R1 trees of the source texts (multiset of blocks, order of own blocks, one expansion per reference, dangling / depth-0 references kept); deep and wide cases run in subprocesses with a horizon",
+   "position of an expansion among its siblings, heading levels and link texts are don't-cares",
+   "explicit-state enumeration of the input space against the implementation with a reference-model oracle", "§5 C17")
+CHECKS["C18"] = ("symbols", "model_checking",
+   "bounded exhaustive exploration of libraries of 1-2 (thorough: 3) notes over a block alphabet (headings of two levels, duplicate and empty titles, headings in lists and quotes, references to every note incl. itself and a missing one) plus 100+-heading libraries; Graph::paths, Database::global_search for every query, workspace/symbol and documentSymbol of the real code are checked against an independent outline / inclusion model: soundness of every path step, completeness for every heading outside lists and quotes, names, lines, the 100-entry cap and the documented order recomputed with the same third-party scorer",
+   "order ties, the first path element and documentSymbol indentation are don't-cares",
+   "explicit-state enumeration of the input space against the implementation with a reference-model oracle", "§5 C18")
 NOT_APPLICABLE = {}
 manifest = {
  "version": 1,
@@ -88,6 +96,8 @@ manifest = {
    {"name": "paths", "path": "/verif/mc/src/engines/paths.rs", "serves_properties": ["C15"], "kind_free_text": "round-trip laws of relative link arithmetic over all path shapes up to a depth"},
    {"name": "names", "path": "/verif/mc/src/engines/names.rs", "serves_properties": ["C14"], "kind_free_text": "writes libraries with awkward file names / base paths to disk and drives the real loader + server through file URIs"},
    {"name": "actions", "path": "/verif/mc/src/engines/actions.rs", "serves_properties": ["C09","C10"], "kind_free_text": "sweeps every line of every block-grammar note through codeAction + resolve on the real server and applies the edits to a copy of the library"},
+   {"name": "squash", "path": "/verif/mc/src/engines/squash.rs", "serves_properties": ["C17"], "kind_free_text": "enumerates block-reference graphs x depths and compares the real squash with an independent recursive expander"},
+   {"name": "symbols", "path": "/verif/mc/src/engines/symbols.rs", "serves_properties": ["C18"], "kind_free_text": "enumerates small libraries and checks outline paths / search / symbols against an independent outline + inclusion model"},
    {"name": "docspace", "path": "/verif/mc/src/engines/docs.rs", "serves_properties": ["C01","C02","C03","C07"], "kind_free_text": "enumerates documents from a token alphabet / block grammar / inline grammar and runs the real formatter and server on each"},
  ],
  "checks": [],
